@@ -25,7 +25,13 @@ import (
 	"verif/mc"
 )
 
-type hooks struct{ s *mc.Sched }
+type hooks struct {
+	s *mc.Sched
+	x *mc.Exec
+}
+
+// Choose: which of several ready select cases runs (Go decides at random; here the explorer does).
+func (h hooks) Choose(name string, n int) int { return h.x.Choose(mc.KEnv, n, nil, 0, name) }
 
 func (h hooks) Point(name string, enabled func() bool) {
 	t := h.s.Current()
@@ -123,6 +129,7 @@ type scenario struct {
 	batches [][]string  // recipient lists, one per concurrent BatchDeliver
 	outs    [][]outcome // outcome per entry, per batch
 	deref   bool        // plus one concurrent Dereference
+	ctxDone bool        // the caller's context is already cancelled when the batch is handed over
 }
 
 type result struct {
@@ -144,7 +151,7 @@ func runScenario(sc scenario, x *mc.Exec) (w *world, s *mc.Sched, errs []error, 
 			w.plan[u] = append(w.plan[u], sc.outs[bi][i])
 		}
 	}
-	zzsync.H = hooks{s}
+	zzsync.H = hooks{s, x}
 	tp := pub.NewHttpSigTransport(client{w}, "app", clock{}, signer{w, "get"}, signer{w, "post"}, "key", []byte("k"))
 	errs = make([]error, len(sc.batches))
 	rets = make([]bool, len(sc.batches)+1)
@@ -156,7 +163,13 @@ func runScenario(sc scenario, x *mc.Exec) (w *world, s *mc.Sched, errs []error, 
 				pu, _ := url.Parse(u)
 				rs = append(rs, pu)
 			}
-			errs[bi] = tp.BatchDeliver(context.Background(), []byte("payload"), rs)
+			ctx := context.Background()
+			if sc.ctxDone {
+				c2, cancel := context.WithCancel(ctx)
+				cancel()
+				ctx = c2
+			}
+			errs[bi] = tp.BatchDeliver(ctx, []byte("payload"), rs)
 			rets[bi] = true
 		})
 	}
@@ -192,6 +205,9 @@ func main() {
 		if len(cur) == n {
 			rec := urls[:n]
 			scs = append(scs, scenario{name: fmt.Sprintf("batch n=%d %v", n, names(cur)), batches: [][]string{append([]string(nil), rec...)}, outs: [][]outcome{append([]outcome(nil), cur...)}})
+			if n >= 1 && n <= 2 {
+				scs = append(scs, scenario{name: fmt.Sprintf("batch n=%d cancelled-context %v", n, names(cur)), batches: [][]string{append([]string(nil), rec...)}, outs: [][]outcome{append([]outcome(nil), cur...)}, ctxDone: true})
+			}
 			if n >= 2 {
 				dup := append([]string(nil), rec...)
 				dup[n-1] = dup[0]
@@ -244,7 +260,7 @@ func main() {
 		if nThreads >= 5 {
 			b = bound - 1 // many threads: one preemption less
 		}
-		e.Budget = [3]int{b, 0, 0}
+		e.Budget = [3]int{b, 0, -1} // every choice among simultaneously ready select cases
 		finals := map[string]bool{}
 		e.Run = func(x *mc.Exec) bool {
 			w, s, errs, rets := runScenario(sc, x)
